@@ -231,3 +231,25 @@ func brief(rows []Row) string {
 	}
 	return "[" + strings.Join(parts, " ") + "]"
 }
+
+// Clone deep-copies the user (objects are shared by identity within the copy).
+func (u *User) Clone() *User {
+	c := NewUser()
+	objs := map[*Obj]*Obj{}
+	for name, b := range u.Boxes {
+		nb := &Mailbox{Name: b.Name, Remote: b.Remote, UIDValidity: b.UIDValidity, UIDNext: b.UIDNext, Subscribed: b.Subscribed}
+		for _, m := range b.Members {
+			o, ok := objs[m.Obj]
+			if !ok {
+				o = &Obj{Marker: m.Obj.Marker, Bytes: m.Obj.Bytes, Remote: m.Obj.Remote, Flags: map[string]bool{}}
+				for f := range m.Obj.Flags {
+					o.Flags[f] = true
+				}
+				objs[m.Obj] = o
+			}
+			nb.Members = append(nb.Members, Member{UID: m.UID, Obj: o, Deleted: m.Deleted})
+		}
+		c.Boxes[name] = nb
+	}
+	return c
+}
